@@ -63,6 +63,7 @@ type FnRun struct {
 	lemmaRun      bool
 	inInit        bool
 	snaps         map[string]*State
+	snapReached   map[string]Term // path condition under which a lock snapshot was recorded
 	constCells    map[string]Term
 	action        *ssa.Function // the function literal when this run verifies a monitor action
 	monitor       *Monitor
@@ -88,7 +89,7 @@ func (e *Engine) NewRun(fn *ssa.Function, c *Contract) *FnRun {
 	r := &FnRun{Eng: e, Sc: sc, TM: NewTypeMap(sc, ModulePath), Heap: NewHeap(sc), Fn: fn, Contract: c,
 		Trusted: map[string]bool{}, Notes: map[string]bool{}, Inlined: map[string]bool{}, addrTable: map[string]*Loc{},
 		closures: map[string]*closureInfo{}, funcRefs: map[string]*ssa.Function{}, factsDone: map[string]bool{}, nameCount: map[string]int{},
-		globalsChecked: map[string]bool{}, snaps: map[string]*State{}, constCells: map[string]Term{}, trackTypes: map[string]types.Type{}, UsedContracts: map[string]bool{}, SpecFuns: map[string]bool{}, lockTouched: map[string]bool{}}
+		globalsChecked: map[string]bool{}, snaps: map[string]*State{}, snapReached: map[string]Term{}, constCells: map[string]Term{}, trackTypes: map[string]types.Type{}, UsedContracts: map[string]bool{}, SpecFuns: map[string]bool{}, lockTouched: map[string]bool{}}
 	r.Heap.noQuantBase = c != nil && !contractNeedsQuantifiedHeapFacts(e, c) && os.Getenv("GOV_QUANTBASE") == ""
 	return r
 }
@@ -208,6 +209,7 @@ type Frame struct {
 	loops     map[*ssa.BasicBlock]*loopInfo
 	loopsUsed map[int]bool
 	rangeInfo map[*ssa.Range]*rangeInfo
+	strPos    map[*ssa.Range]string // range-over-string loops: ghost key of the byte position
 	id        int
 	noKeep    bool // the next heap havoc must not preserve monitor-protected state
 	lockKeep  bool // ... except the state of lock-style monitors: the code reached cannot contain a function that works on it
@@ -298,6 +300,11 @@ func (fr *Frame) typeFacts(v Term, t types.Type) {
 		fr.R.Sc.Assume(And(Le(IntLit(0), app(SInt, "i-typ", v)), Implies(Eq(app(SInt, "i-typ", v), IntLit(0)), Eq(app(SInt, "i-val", v), IntLit(0)))))
 	case *types.Struct:
 		_ = u
+	case *types.Basic:
+		if u.Info()&types.IsString != 0 {
+			// A-MEM: no string is longer than 2^62 bytes
+			fr.R.Sc.Assume(Le(app(SInt, "str.len", v), BigLit("4611686018427387904")))
+		}
 	}
 }
 
